@@ -103,7 +103,7 @@ theorem runForwardOn_eq (net : Net W) (flags : Option (St W)) (s : NodeArg) (t :
 
 /-! ### invariant of a session -/
 section session
-variable {W : Type} [AddCommMonoid W] [LinearOrder W] [IsOrderedAddMonoid W]
+variable {W : Type} [LinearOrder W] [Add W] [Zero W] [WalkAdd W]
 
 /-- the flags a session leaves on the nodes are those of a forward pass from some source of the network -/
 def SessGood (net : Net W) (se : Sess W) : Prop := ∀ st, se.flags = some st → ∃ s, s < net.n ∧ Good net s st
@@ -115,7 +115,7 @@ def OpOk (net : Net W) : Op W → Prop
   | .fwd s _ _ _ => correctInputNode s < net.n
   | .back _ => True
 
-omit [IsOrderedAddMonoid W] in
+omit [WalkAdd W] in
 theorem sessGood_start (net : Net W) : SessGood net (Sess.start : Sess W) := by
   intro st h; cases h
 
@@ -170,7 +170,7 @@ end TV.GraphExt
 
 /-! ### labels of settled nodes are final in EVERY state of the loop -/
 namespace TV.Graph
-variable {W : Type} [AddCommMonoid W] [LinearOrder W] [IsOrderedAddMonoid W]
+variable {W : Type} [LinearOrder W] [Add W] [Zero W] [WalkAdd W]
 
 /-- in a state satisfying the loop invariants, every walk from the source ends at a node whose label does not exceed
 the walk's weight, or passes a labelled unsettled node whose label does not exceed it -/
@@ -182,14 +182,14 @@ theorem walk_frontier (net : Net W) (hnet : WFNet net) (s : Nat) (st : St W) (hi
   | @snoc a v x w hwalk harc ih =>
     obtain ⟨z, y, hz, hle, hor⟩ := ih
     have hw0 : 0 ≤ w := (arc_wf hnet harc).2
-    have hxw : x ≤ x + w := le_add_of_nonneg_right hw0
+    have hxw : x ≤ x + w := WalkAdd.le_add_right x w hw0
     rcases hor with rfl | hun
     · cases hva : st.vis z with
       | true =>
         obtain ⟨x', y', h1, h2, h3⟩ := hinv.j2 z hva v w harc
         rw [hz] at h1
         cases h1
-        exact ⟨v, y', h2, le_trans h3 (add_le_add_left hle w), Or.inl rfl⟩
+        exact ⟨v, y', h2, le_trans h3 (WalkAdd.add_le_add _ _ w hle), Or.inl rfl⟩
       | false => exact ⟨z, y, hz, le_trans hle hxw, Or.inr hva⟩
     · exact ⟨z, y, hz, le_trans hle hxw, Or.inr hun⟩
 
@@ -389,7 +389,7 @@ theorem pyNext_fold (net : Net W) (u : Nat) (du : W) : ∀ (st : St W), st.vis u
 end construction
 
 section lookup
-variable {W : Type} [AddCommMonoid W] [LinearOrder W] [IsOrderedAddMonoid W]
+variable {W : Type} [LinearOrder W] [Add W] [Zero W] [WalkAdd W]
 
 /-- looking the ids of `NEXT_EDGES[u]` up in `EDGES` (a dict keyed by unique edge ids) gives back the edges -/
 theorem lookup_next (net : Net W) (hu : UniqueIds net) (u : Nat) : ∀ (l : List (Edge W)), (∀ e ∈ l, e ∈ net.edges) →
